@@ -232,6 +232,7 @@ func (eng *Engine) newExec(fn *ssa.Function, fc *FuncContract, mode string) *Exe
 		}
 	}
 	ex.maxPaths = 200000
+	ex.storedConsts()
 	return ex
 }
 
